@@ -58,6 +58,11 @@ def summaries(chk, ph):
 
 
 def build(chk):
+    # 'spline derivatives of the free-energy table' (anchors): whenever a table is installed the derivative splines are those of the NEW
+    # spline (shared with C18)
+    from .C18_interpolation import c_interpolate, c_modes
+    c_interpolate(chk)
+    c_modes(chk)
     chk.assume_note(FREE_ENERGY_ASSUMPTION)
     chk.assume_note("pow(b, e) with symbolic exponent: only b**(e+k) = b**e * b**k (k integer literal) and b>0 => b**e>0 are used")
     all_sums = {}
